@@ -573,7 +573,13 @@ def r_expnum(prog, tier):
         obs.append(Ob('R-EXPNUM', f.fq, 'constituent numbers are consecutive from 500: `%s`' % unparse(n.ast), ok, why,
                       construct='num-store:' + unparse(n.ast), line=n.lineno))
         # (N2a) levels ascending
-        if any_reverse:
+        rev_iter = [x for x in ast.walk(f.node) if isinstance(x, ast.For) and isinstance(x.iter, ast.Call)
+                    and unparse(x.iter.func) == 'reversed' and lvname and lvname in unparse(x.iter)
+                    and 'sorted(' not in unparse(x.iter)]
+        if rev_iter:
+            asc, whya = False, 'the levels are visited in reversed dictionary order (`%s`), not in ascending order: a ' \
+                               'constituent can be numbered below its descendants' % unparse(rev_iter[0].iter)[:50]
+        elif any_reverse:
             asc, whya = False, 'a sort in reverse order decides the numbering'
         elif sorted_levels:
             asc, whya = True, 'the level numbers are visited through sorted(%s)' % lvname
